@@ -307,8 +307,8 @@ let do_search fields =
   | Ok (b, t) ->
     (match get_best_move zt (osort_of_log log) k (nat_of_int 400) b t with
      | Ok (ev, st) ->
-       let sends = List.filter_map (function Send s -> Some (text_of_res (best_move_text s) ^ "#" ^ proj_of (abs0 s)) | Info _ -> None) ev in
-       let infos = List.filter_map (function Info l -> Some (string_of_str l) | Send _ -> None) ev in
+       let sends = List.filter_map (function Send s -> Some (text_of_res (best_move_text s) ^ "#" ^ proj_of (abs0 s)) | Info (_, _, _) -> None) ev in
+       let infos = List.filter_map (function Info (_, _, l) -> Some (string_of_str l) | Send _ -> None) ev in
        let line = Printf.sprintf "search panic=0 consulted=%d sends=%s infos=%s restored=%s%s"
            (int_of_n st.clock) (String.concat "," sends) (String.concat "|" infos)
            (if table_dump_nz st.table = table_dump_nz t then "1" else "0")
